@@ -46,6 +46,14 @@ type Case struct {
 	// The resumed search has to end; its answer holds every matching document of the
 	// surviving fractions and nothing that was never stored.
 	Retire bool `json:"retire,omitempty"`
+	// BadAgg: the only aggregation asks for a number function over the text field svc; when a
+	// matching document carries a non-numeric value the synchronous search fails with an error.
+	// The asynchronous search then has to fail too - reported by the fetch, with the store
+	// staying up, also across a restart - and must not present a result.
+	BadAgg bool `json:"bad_agg,omitempty"`
+	// Huge: two more documents whose dur values are finite but add up beyond float64
+	// (1e308 + 1.5e308): sums and averages are +Inf in the synchronous answer
+	Huge bool `json:"huge,omitempty"`
 }
 
 func genCase(t *rapid.T) Case {
@@ -73,6 +81,17 @@ func genCase(t *rapid.T) Case {
 	c.R.Limit = 1<<31 - 1 // and uses this limit
 	c.Style = gen.Style(t)
 	c.Aggs = gen.AggSpecs(t, 2)
+	switch rapid.IntRange(0, 9).Draw(t, "trouble") {
+	case 8:
+		c.BadAgg = true
+		c.Aggs = []model.AggSpec{{Func: rapid.SampledFrom([]string{"sum", "min", "avg", "quantile"}).Draw(t, "badfunc"), Field: "svc"}}
+		if c.Aggs[0].Func == "quantile" {
+			c.Aggs[0].Quantiles = []float64{0.5}
+		}
+	case 9:
+		c.Huge = true
+		c.Aggs = append(c.Aggs, model.AggSpec{Func: rapid.SampledFrom([]string{"sum", "avg"}).Draw(t, "hugefunc"), Field: "dur"})
+	}
 	if rapid.IntRange(0, 3).Draw(t, "crash") > 0 {
 		c.Point = rapid.SampledFrom([]string{"async.write.renamed", "async.write.synced", "async.write.begin"}).Draw(t, "point")
 		c.N = rapid.IntRange(1, c.K+2).Draw(t, "n")
@@ -106,6 +125,9 @@ func waitDone(p *harness.Proc, id string, aggs []model.AggSpec) (*harness.PResp,
 		}
 		if !r.Found {
 			return nil, evid.Failf("async-request-lost", "the store does not know async search %s", id)
+		}
+		if r.Failed != "" {
+			return nil, evid.Failf("async-search-failed", "the synchronous search succeeds, the asynchronous one has failed: %s", r.Failed)
 		}
 		if r.Done {
 			return r, nil
@@ -221,6 +243,15 @@ func runCase(c Case) (evid.Result, error) {
 		return res, evid.Failf("no-start", "%v", err)
 	}
 	defer func() { p.Kill() }()
+	if c.Huge {
+		// appended to the last fraction, at the time of the first document; the model sees them as well
+		at := c.Corpus[0].ID.MID
+		c.Corpus = append(append(model.Corpus{}, c.Corpus...),
+			model.Doc{ID: model.ID{MID: at, RID: 1<<60 + 1}, Body: []byte(`{"dur":"1e308"}`), Toks: []model.Tok{{F: "_all_", V: ""}, {F: "_exists_", V: "dur"}, {F: "dur", V: "1e308"}}},
+			model.Doc{ID: model.ID{MID: at, RID: 1<<60 + 2}, Body: []byte(`{"dur":"1.5e308"}`), Toks: []model.Tok{{F: "_all_", V: ""}, {F: "_exists_", V: "dur"}, {F: "dur", V: "1.5e308"}}})
+		c.FracOf = append(append([]int{}, c.FracOf...), c.K-1, c.K-1)
+		res.Labels = append(res.Labels, "sum-beyond-float64")
+	}
 	nfr, firstFrac := 0, -1
 	dupApplied := false
 	for f := 0; f < c.K; f++ {
@@ -267,8 +298,14 @@ func runCase(c Case) (evid.Result, error) {
 	if err != nil {
 		return res, evid.Failf("died-in-search", "exit %d %s", p.Exit, p.StderrTail())
 	}
+	if !sync.OK && c.BadAgg {
+		return failingSearch(&c, &p, dir, opts, text, sync.Err, res)
+	}
 	if !sync.OK {
 		return res, evid.Failf("search-error", "%q: %s", text, sync.Err)
+	}
+	if c.BadAgg {
+		c.Aggs = nil // no matching document has a non-numeric value: nothing special about this case
 	}
 	if err := compare("sync", sync, c.Corpus, &c, dupApplied, nil); err != nil {
 		return res, err
@@ -464,6 +501,67 @@ func runCase(c Case) (evid.Result, error) {
 	}
 	if len(contributing) >= 2 {
 		res.Labels = append(res.Labels, "fracs-contributing>=2")
+	}
+	return res, nil
+}
+
+// failingSearch: the synchronous search has answered with an error.  The asynchronous one
+// may be refused at the start; otherwise every fetch, before and after a restart, must say
+// that it failed (or that it does not know the search) - with the store up.
+func failingSearch(c *Case, pp **harness.Proc, dir string, opts harness.StoreOpts, text, syncErr string, res evid.Result) (evid.Result, error) {
+	p := *pp
+	res.Labels = append(res.Labels, "synchronous-search-fails")
+	res.NonTrivial = true
+	id := "req-bad"
+	r, err := p.Do(harness.PCmd{Op: "startasync", ID: id, Req: &c.R, Text: text, Aggs: c.Aggs})
+	if err != nil {
+		return res, evid.Failf("died-in-async", "store died when an async search was started whose synchronous form fails with %q: exit %d %s", syncErr, p.Exit, p.StderrTail())
+	}
+	if !r.OK {
+		res.Labels = append(res.Labels, "async-start-refused")
+		return res, nil
+	}
+	poll := func(when string) error {
+		deadline := time.Now().Add(30 * time.Second)
+		for {
+			r, err := p.Do(harness.PCmd{Op: "fetchasync", ID: id, Aggs: c.Aggs})
+			if err != nil {
+				return evid.Failf("died-in-async", "%s: the synchronous search fails with %q; the store died during the asynchronous one: exit %d %s", when, syncErr, p.Exit, p.StderrTail())
+			}
+			if !r.OK {
+				return evid.Failf("fetchasync-error", "%s: %s", when, r.Err)
+			}
+			if !r.Found || r.Failed != "" {
+				return nil
+			}
+			if r.Done {
+				return evid.Failf("error-hidden", "%s: the synchronous search fails with %q, the asynchronous one reports done with a result (%d ids)", when, syncErr, len(r.IDs))
+			}
+			if time.Now().After(deadline) {
+				return evid.Failf("async-never-done", "%s: async search is neither done nor failed after 30 s", when)
+			}
+			time.Sleep(2 * time.Millisecond)
+		}
+	}
+	if err := poll("first run"); err != nil {
+		return res, err
+	}
+	res.Evals++
+	for round := 0; round < 2; round++ {
+		if round == 0 {
+			p.Kill()
+		} else if err := p.StopGraceful(); err != nil {
+			return res, evid.Failf("stop-failed", "%v", err)
+		}
+		q, err := harness.OpenProcAsync(dir, opts, c.Fsync, true)
+		if err != nil {
+			return res, evid.Failf("no-start", "with a failed async search on disk: %v", err)
+		}
+		p, *pp = q, q
+		if err := poll(fmt.Sprintf("after restart %d", round+1)); err != nil {
+			return res, err
+		}
+		res.Evals++
 	}
 	return res, nil
 }
